@@ -2,7 +2,7 @@
    Statements only, one group per allocator family; the models are tied to the code by replay of
    implementation logs (see the evidence file for what was replayed on this run). *)
 From Coq Require Import ZArith List Bool.
-From FM Require Import FixedStack SmallCarve PoolSpec SlotProofs ListLib PoolSpecProofs Stack StackProofs Iteration IterationProofs InvalidRelease SmallList SmallListProofs Stack Arena UnorderedList UnorderedRefine PoolExec PoolExecProofs SmallRefine SmallPoolExec SmallPoolExecProofs.
+From FM Require Import FixedStack SmallCarve PoolSpec SlotProofs ListLib PoolSpecProofs Stack StackProofs Iteration IterationProofs InvalidRelease SmallList SmallListProofs Stack Arena UnorderedList UnorderedRefine PoolExec PoolExecProofs SmallRefine SmallPoolExec SmallPoolExecProofs OrderedList OrderedRefine OrderedPoolExec OrderedPoolExecProofs.
 Import ListNotations.
 Local Open Scope Z_scope.
 
@@ -136,6 +136,25 @@ Theorem C01_small_pool_exec_refines_spec : forall os s sp s' tr, SPR s sp -> 1 <
   sp_run s os = Some (s', tr) -> exists sp', PoolSpecProofs.run sp tr = Some sp' /\ SPR s' sp'.
 Proof. exact small_pool_refines_spec. Qed.
 Print Assumptions C01_small_pool_exec_refines_spec.
+
+(* the same for memory_pool<array_pool>, and memory_pool<node_pool> when the double-free check is compiled in (OrderedPoolExec.v:
+   arena + address-ordered list with its two cursors): every operation is accepted by the Spec, hence every history; the
+   constructor's state is related to the Spec's initial state after its first block *)
+Theorem C01_ordered_pool_exec_step_refines_spec : forall s sp o s' r evs, OPR s sp -> 0 < op_ns s < 2^64 -> op_answer_ok s sp o ->
+  op_step s o = Some (s', r, evs) -> exists sp', acc_op sp (op_spec_op (op_ns s) o) evs r = Some sp' /\ OPR s' sp'.
+Proof. exact ordered_pool_step_refines. Qed.
+Print Assumptions C01_ordered_pool_exec_step_refines_spec.
+
+Theorem C01_ordered_pool_exec_refines_spec : forall os s sp s' tr, OPR s sp -> 0 < op_ns s < 2^64 -> op_answers_ok s sp os ->
+  op_run s os = Some (s', tr) -> exists sp', PoolSpecProofs.run sp tr = Some sp' /\ OPR s' sp'.
+Proof. exact ordered_pool_refines_spec. Qed.
+Print Assumptions C01_ordered_pool_exec_refines_spec.
+
+Theorem C01_ordered_pool_exec_constructor_related : forall k pb0 pe0 ns bs answer s ok evs, pb0 < pe0 -> 0 < ns < 2^64 ->
+  (forall addr, answer = Some addr -> OWB (mk_ast [ul ns [] 0]) addr bs /\ ns <= bs - hdr) ->
+  op_construct k pb0 pe0 ns bs answer = (s, ok, evs) -> exists sp, acc_evs (mk_ast [ul ns [] 0]) evs = Some sp /\ OPR s sp.
+Proof. exact op_construct_refines. Qed.
+Print Assumptions C01_ordered_pool_exec_constructor_related.
 
 Example C01_pool_exec_nonvacuous :
   match up_run (up_init AGrow 16 176) [PAllocNode (Some 65536); PAllocNode None; PTryAllocNode; PDeallocNode 65552; PAllocNode None; PAllocArray 40 None; PDeallocArray 65600 40; PTryAllocArray 4000] with
